@@ -58,8 +58,10 @@ class Obligation:
 
 
 class Config:
-    branch_timeout_ms = 2000
-    oblig_timeout_ms = 10000
+    # wall-clock budgets, sized >= 50x the slowest query observed on an idle machine so that verdicts do not
+    # flip when all cores are busy
+    branch_timeout_ms = 5000
+    oblig_timeout_ms = 60000
     max_paths = 20000
     use_cvc5 = True
     keep_smt2 = 3  # how many sample obligations keep their SMT-LIB text
